@@ -25,7 +25,15 @@ type rawReq struct {
 	method, path                  string
 	depth, overwrite, dest, ctype string
 	body                          []byte
+	// how the body reaches the handler: "exact" (ContentLength = len), "unknown"
+	// (ContentLength -1, a reader of undisclosed type, as net/http hands over a chunked
+	// body), "larger" / "smaller" (a ContentLength that disagrees with the bytes),
+	// "nobody" (http.NoBody, ContentLength 0; empty bodies only), "chunked" (sent to a
+	// real httptest.Server with Transfer-Encoding: chunked)
+	delivery string
 }
+
+var deliveries = []string{"exact", "unknown", "larger", "smaller", "nobody", "chunked"}
 
 // ---- the parses the model takes as inputs, computed with the real libraries
 
@@ -176,14 +184,81 @@ func (r *rawReq) sx() string {
 	return hx.L("req", hx.S(r.method), hx.S(r.path), hx.S(r.depth), hx.S(r.overwrite), dest,
 		hx.B(r.ctype != ""), hx.S(media), hx.B(merr != nil), hx.B(len(r.body) == 0), xmls,
 		hx.B(icalOK(r.body)), hx.B(vcardOK(r.body)), hx.L(urls...),
-		hx.L("raw", hx.S(r.ctype), hx.S(r.dest), hx.S(string(r.body))))
+		hx.L("raw", hx.S(r.ctype), hx.S(r.dest), hx.S(string(r.body)), r.deliveryOr()))
+}
+
+func (r *rawReq) deliveryOr() string {
+	if r.delivery == "" {
+		return "exact"
+	}
+	return r.delivery
+}
+
+// normalise replaces a delivery form the request cannot take by the nearest one
+func (r *rawReq) normalise() {
+	switch r.delivery {
+	case "nobody":
+		if len(r.body) != 0 {
+			r.delivery = "unknown"
+		}
+	case "smaller":
+		if len(r.body) < 2 {
+			r.delivery = "larger"
+		}
+	case "chunked":
+		if !r.wireSafe() {
+			r.delivery = "unknown"
+		}
+	case "":
+		r.delivery = "exact"
+	}
+}
+
+func tokenOK(s string) bool {
+	if s == "" {
+		return false
+	}
+	for _, c := range []byte(s) {
+		if !(c >= 'A' && c <= 'Z' || c >= 'a' && c <= 'z') {
+			return false
+		}
+	}
+	return true
+}
+
+func headerOK(s string) bool {
+	if s != strings.TrimSpace(s) {
+		return false
+	}
+	for _, c := range []byte(s) {
+		if c < 0x20 || c > 0x7e {
+			return false
+		}
+	}
+	return true
+}
+
+// wireSafe: the request survives net/http's client and server unchanged
+func (r *rawReq) wireSafe() bool {
+	if !tokenOK(r.method) || !strings.HasPrefix(r.path, "/") || strings.ContainsAny(r.path, "?#") {
+		return false
+	}
+	if r.method == "CONNECT" || strings.EqualFold(r.method, "HEAD") && len(r.body) > 0 {
+		return false
+	}
+	return headerOK(r.depth) && headerOK(r.overwrite) && headerOK(r.dest) && headerOK(r.ctype)
 }
 
 func parseRawReq(x hx.Sx) *rawReq {
 	a := x.Args()
 	raw := a[len(a)-1].Args()
-	return &rawReq{method: a[0].Str(), path: a[1].Str(), depth: a[2].Str(), overwrite: a[3].Str(),
-		ctype: raw[0].Str(), dest: raw[1].Str(), body: []byte(raw[2].Str())}
+	r := &rawReq{method: a[0].Str(), path: a[1].Str(), depth: a[2].Str(), overwrite: a[3].Str(),
+		ctype: raw[0].Str(), dest: raw[1].Str(), body: []byte(raw[2].Str()), delivery: "exact"}
+	if len(raw) > 3 {
+		r.delivery = raw[3].Atom
+	}
+	r.normalise()
+	return r
 }
 
 // httpRequest builds the request as net/http hands it to a handler, without the
@@ -206,6 +281,19 @@ func (r *rawReq) httpRequest() *http.Request {
 		Method: r.method, URL: &url.URL{Path: r.path}, Proto: "HTTP/1.1", ProtoMajor: 1, ProtoMinor: 1,
 		Header: h, Body: io.NopCloser(bytes.NewReader(r.body)), ContentLength: int64(len(r.body)), Host: "example.org",
 		RequestURI: r.path,
+	}
+	switch r.delivery {
+	case "unknown":
+		req.Body = io.NopCloser(struct{ io.Reader }{bytes.NewReader(r.body)})
+		req.ContentLength = -1
+		req.TransferEncoding = []string{"chunked"}
+	case "larger":
+		req.ContentLength = int64(len(r.body)) + 7
+	case "smaller":
+		req.ContentLength = int64(len(r.body)) - 1
+	case "nobody":
+		req.Body = http.NoBody
+		req.ContentLength = 0
 	}
 	return req
 }
@@ -248,16 +336,8 @@ func parseKase(x hx.Sx) *kase {
 	return k
 }
 
-// observe runs the real handler inside recover.
-func (k *kase) observe() (obs string) {
-	rec := &recorder{}
-	w := httptest.NewRecorder()
-	defer func() {
-		if r := recover(); r != nil {
-			obs = "(panic)"
-		}
-	}()
-	req := k.req.httpRequest()
+// serveWith runs the real handler of the case.
+func (k *kase) serveWith(rec *recorder, w http.ResponseWriter, req *http.Request) {
 	switch k.server {
 	case "dav":
 		h := &webdav.Handler{}
@@ -288,9 +368,115 @@ func (k *kase) observe() (obs string) {
 		}
 		webdav.ServePrincipal(w, req, opts)
 	}
+}
+
+// observe runs the real handler inside recover, on a request built by hand.
+func (k *kase) observe() (obs string) {
+	rec := &recorder{}
+	w := httptest.NewRecorder()
+	defer func() {
+		if r := recover(); r != nil {
+			obs = "(panic)"
+		}
+	}()
+	k.serveWith(rec, w, k.req.httpRequest())
 	items := []string{"resp", fmt.Sprint(w.Code)}
 	items = append(items, rec.calls...)
 	return hx.L(items...)
 }
 
-func (k *kase) line() string { return k.sx() + " " + k.observe() }
+// wire is one real HTTP server + client: net/http's own request framing (chunked
+// transfer coding, its body type, ContentLength -1) is in the loop.
+type wire struct {
+	srv    *httptest.Server
+	client *http.Client
+	cur    *kase
+	rec    *recorder
+	status int
+	panic  bool
+	skew   string
+}
+
+type statusWriter struct {
+	http.ResponseWriter
+	w *wire
+}
+
+func (s *statusWriter) WriteHeader(code int) {
+	if s.w.status == 0 {
+		s.w.status = code
+	}
+	s.ResponseWriter.WriteHeader(code)
+}
+
+func (s *statusWriter) Write(p []byte) (int, error) {
+	if s.w.status == 0 {
+		s.w.status = 200
+	}
+	return s.ResponseWriter.Write(p)
+}
+
+func newWire() *wire {
+	w := &wire{}
+	w.srv = httptest.NewServer(http.HandlerFunc(func(rw http.ResponseWriter, r *http.Request) {
+		k := w.cur
+		q := k.req
+		if r.Method != q.method || r.URL.Path != q.path || r.Header.Get("Depth") != q.depth || r.Header.Get("Overwrite") != q.overwrite ||
+			r.Header.Get("Destination") != q.dest || r.Header.Get("Content-Type") != q.ctype {
+			w.skew = fmt.Sprintf("%q %q", r.Method, r.URL.Path)
+			return
+		}
+		defer func() {
+			if p := recover(); p != nil {
+				w.panic = true
+			}
+		}()
+		k.serveWith(w.rec, &statusWriter{rw, w}, r)
+	}))
+	w.client = &http.Client{CheckRedirect: func(*http.Request, []*http.Request) error { return http.ErrUseLastResponse }}
+	return w
+}
+
+func (w *wire) observe(k *kase) string {
+	w.cur, w.rec, w.status, w.panic, w.skew = k, &recorder{}, 0, false, ""
+	q := k.req
+	req, err := http.NewRequest(q.method, w.srv.URL, struct{ io.Reader }{bytes.NewReader(q.body)})
+	if err != nil {
+		return "(wire-error)"
+	}
+	req.URL.Path = q.path
+	req.ContentLength = -1
+	req.TransferEncoding = []string{"chunked"}
+	for n, v := range map[string]string{"Depth": q.depth, "Overwrite": q.overwrite, "Destination": q.dest, "Content-Type": q.ctype} {
+		if v != "" {
+			req.Header.Set(n, v)
+		}
+	}
+	resp, err := w.client.Do(req)
+	if err == nil {
+		io.Copy(io.Discard, resp.Body)
+		resp.Body.Close()
+	}
+	switch {
+	case w.skew != "":
+		return "(skew " + hx.S(w.skew) + ")"
+	case w.panic:
+		return "(panic)"
+	case err != nil:
+		return "(wire-error)"
+	}
+	status := w.status
+	if status == 0 {
+		status = 200
+	}
+	items := []string{"resp", fmt.Sprint(status)}
+	items = append(items, w.rec.calls...)
+	return hx.L(items...)
+}
+
+func (k *kase) line(w *wire) string {
+	if k.req.delivery == "chunked" {
+		return k.sx() + " " + w.observe(k)
+	}
+	return k.sx() + " " + k.observe()
+}
